@@ -527,6 +527,27 @@ def rp(case, **kw):
 
 
 def build(case):
+    """the alignment under test.  case["life"] == "retargeted": the object was not born from the constructor call
+    Cls(S, T) but had a previous life - it is the pseudoinverse() of the reverse alignment (or, where that does not
+    exist, an alignment to another target) and was then brought to T with set_target; property C08 makes it the same
+    alignment, so every C07 clause must hold for it as for a fresh one."""
+    a, S, T = _build_fresh(case)
+    if case.get("life") != "retargeted" or case["cls"] == "pwa":
+        return a, S, T
+    from menpo.shape import PointCloud
+    try:
+        other = PointCloud(np.array(case["S"], dtype=float)[::-1] * 1.5 + 1.0)
+        rev = dict(case, S=other.points.tolist(), T=case["S"], life=None)
+        b = _build_fresh(rev)[0].pseudoinverse()          # an alignment S -> other
+        if not np.array_equal(b.source.points, S.points):
+            return a, S, T
+        b.set_target(T)
+        return b, S, T
+    except Exception:      # noqa: BLE001 - a singular reverse alignment: keep the constructor-born object
+        return a, S, T
+
+
+def _build_fresh(case):
     from menpo.shape import PointCloud, TriMesh
     import menpo.transform as mt
     cls, o = case["cls"], case["opts"]
@@ -1054,6 +1075,14 @@ def compare(ctx, cid, pend, model):
 # ============================================================================ runs
 
 def gen_case(rng, k):
+    case = _gen_case(rng, k)
+    if isinstance(case, dict) and case.get("cls") in ("translation", "scale", "affine", "rotation", "similarity", "tps") \
+            and rng.random() < 0.3:
+        case["life"] = "retargeted"
+    return case
+
+
+def _gen_case(rng, k):
     """deterministic schedule over classes so every class/option is hit in every run"""
     slot = k % 16
     if slot < 9:
